@@ -115,6 +115,18 @@ def delivery_scenarios(prop, tier, seed, rq, wqs, families=("rule", "rand"), fra
                     steps = setup(wq, [rq]) + [{"do": "rules", "rules": pat}] + writes(plan) + [{"do": "sleep", "ms": 400}] + finish(1)
                     out.append({"name": f"{prop}-rule-w{wi}-p{pi}-f{fi}", "family": "rule", "seed": seed, "frag": frag, "steps": steps})
                     nrule += 1
+    # a peer that batches: the datagrams of a burst are merged into one RTPS message with several DATA / DATA_FRAG / HEARTBEAT submessages
+    nb = 12 if tier == "quick" else 200
+    for k in range(nb):
+        wq = wqs[k % len(wqs)]
+        plan = [(rng.choice([1, 1, 2, 3]), rng.choice([8, 8, 40, 100, 200])) for _ in range(rng.randint(2, 6))]
+        steps = setup(wq, [rq]) + [{"do": "hold", "on": True}] + writes(plan) + [{"do": "sleep", "ms": 5}, {"do": "merge_held"}, {"do": "hold", "on": False}]
+        if k % 3 == 2:
+            # a second batch while the first one may still be repaired
+            plan2 = [(rng.choice([1, 2]), 8) for _ in range(rng.randint(1, 3))]
+            steps += [{"do": "sleep", "ms": rng.choice([1, 50])}, {"do": "hold", "on": True}] + writes(plan2) + [{"do": "sleep", "ms": 5}, {"do": "merge_held"}, {"do": "hold", "on": False}]
+        steps += [{"do": "sleep", "ms": 300}] + finish(1)
+        out.append({"name": f"{prop}-batched-{k}", "family": "batched", "seed": seed * 31 + k, "frag": rng.choice([64, 128, 1344]), "steps": steps})
     if "rand" in families:
         n = 60 if tier == "quick" else 1500
         for k in range(n):
